@@ -192,7 +192,23 @@ def mg3456(F, R):
                   "the right vertex's data field is copied without (exactly) testing that the right vertex has data: an empty "
                   "datum overwrites the left one, or read data is not carried over", detail)
         else:
-            R.ok("MG5", e.where(), "put(left, data of right) iff right has data", detail)
+            # ... and under no other condition (the guards of the descent itself — "right not visited yet" — aside)
+            def own(f):
+                if f is g or "Level" in repr(f):
+                    return False
+                if f[0] in ("in", "notin") and is_pers_discr_of(f[1]):
+                    return False
+                if mentions(f, lambda x: x == mp) or (f[0] == "in" and strip_load(f[1])[0] == "discr" and
+                                                      strip_load(strip_load(f[1])[1])[0] in ("next", "opt")):
+                    return False
+                return True
+            extra = [f for f in e.facts if own(f)]
+            if extra:
+                R.bad("MG5", "MG5/Sodg::merge/put-extra-condition", e.where(),
+                      "the right vertex's datum is carried over only under an additional condition (%s): a datum of the right graph is "
+                      "not stored (again) on the left, so it is not counted as unread there" % [show(f, e.body)[:120] for f in extra], detail)
+            else:
+                R.ok("MG5", e.where(), "put(left, data of right) iff right has data", detail)
     # ---- MG6
     recs = [e for e in raw if e.kind == "call" and e.path == rec.path]   # in the body or in a closure it hands to an adaptor
     R.floor("MG6", "recursive calls of the descent", len(recs), 1, rec.where())
